@@ -12,7 +12,7 @@ CHECKS = {
             "Trusts the repository's `instrumentation` stepping API to be the same code the workers run (it calls the same DbInner methods); value = f(key) on preimage columns.",
             "DESIGN.md 4 C01", "pdbv"),
     "C02": ("fault_enumeration",
-            "fault/crash-point enumeration over generated histories: every file-operation index of every pipeline step -> directory image (+ generated log-tail cut, + crashes inside recovery) -> reopen -> prefix oracle against the model; shrinking to (scenario, stop point) JSON replay",
+            "fault/crash-point enumeration over generated histories: every file-operation index of every pipeline step -> directory image (+ generated log-tail cut, + crashes inside recovery) -> reopen -> prefix oracle against the model; shrinking to (scenario, stop point) JSON replay; plus a kill mode (child process with the real worker threads SIGKILLed at a generated moment, incl. during creation) and directly built interrupted-creation images",
             "For each generated scenario every stop point inside every pipeline op is enumerated (sampled above a cap), so recovery is exercised at every file-operation boundary the library has, recursively inside recovery. The oracle is the prefix-state set of a naive model. Bounded by scenario size; absence is not established.",
             "Crash = process stop at one of the library's try_io! sites (repository feature `instrumentation`), image = directory copy at that instant; the injected error stands for the stop (code that runs after the error on its way out performs no further file operation because the injector keeps failing).",
             "DESIGN.md 4 C02", "pdbv"),
@@ -22,7 +22,7 @@ CHECKS = {
             "sync_wal=true makes a returned flush_logs step a durability point; process-crash model (page loss is C12).",
             "DESIGN.md 4 C03", "pdbv"),
     "C04": ("exploration",
-            "model-based stateful PBT: cursor state machine {Start,End,Seeked,At} against a sorted-map model, one iterator kept open across commits/steps; independent on-disk tree walk after drain",
+            "model-based stateful PBT: cursor state machine {Start,End,Seeked,At} against a sorted-map model, one iterator kept open across commits/steps; independent on-disk tree walk after drain; plus the same scenarios while the library's own worker threads move the data",
             "Generated histories of commits (incl. bulk insert/delete forcing splits, merges, root changes), pipeline steps and iterator calls; every iterator answer is compared with the model at the time of the call; the on-disk tree is re-parsed by an independent reader (sorted, uniform depth, values resolve).",
             "seek_to_first is seek(\"\"); the raw layout reader is an independent re-implementation of the documented file formats.",
             "DESIGN.md 4 C04", "pdbv"),
@@ -32,7 +32,7 @@ CHECKS = {
             "rc-header boundary lengths come from a key->length function because the preimage contract fixes value = f(key).",
             "DESIGN.md 4 C06", "pdbv"),
     "C07": ("exploration",
-            "model-based stateful PBT with a count model (Set +1, Reference/Dereference only on present keys) over hash-rc and btree-rc columns; presence oracle conditioned on the queue being empty; value-iteration multiset and raw stored counts compared after drain",
+            "model-based stateful PBT with a count model (Set +1, Reference/Dereference only on present keys) over hash-rc and btree-rc columns; presence oracle conditioned on the queue being empty; value-iteration multiset and raw stored counts compared after drain; plus the same histories with the library's own worker threads",
             "Generated Set/Reference/Dereference histories with counts crossing zero while commits are queued; after every op the conditional presence oracle; after drain the (value,count) multiset from value iteration and the counts stored on disk (hash and btree) must equal the model. thorough adds crash stop points with counts in the observation.",
             "While commits are queued a count-0 key may still be readable (the property allows it).",
             "DESIGN.md 4 C07", "pdbv"),
@@ -47,7 +47,7 @@ CHECKS = {
             "A poisoned transaction that is accepted discards the scenario (counted); the background-error state is entered via the verif_store_err hook (same store_err path as a failing worker).",
             "DESIGN.md 4 C08", "pdbv"),
     "C10": ("exploration",
-            "model-based stateful PBT over a forest model (arena of nodes with parent counts): generated InsertTree/ReferenceTree/DereferenceTree histories with shared nodes, traversal oracle after every op, entry-count and raw forest/ref-count comparison after drain",
+            "model-based stateful PBT over a forest model (arena of nodes with parent counts): generated InsertTree/ReferenceTree/DereferenceTree histories with shared nodes, traversal oracle after every op, entry-count and raw forest/ref-count comparison after drain; plus the same histories with the library's own worker threads, and reference-count table growth on a 1M-node base",
             "Generated tree shapes (fan-out up to 255 and unrepresentable 256/300, multipart nodes, DAG sharing incl. the same node several times) over four column variants; every live tree is traversed after every op; after drains the files are re-parsed (node reference counts == referencing parents, forest == model, zero entries when no tree is live).",
             "Existing-node references follow the client contract (nodes of trees live after all returned commits; not in a transaction that also dereferences).",
             "DESIGN.md 4 C10", "pdbv"),
